@@ -33,4 +33,9 @@ BUILT = {
   level='exploration',
   text='Random aggregate types (bit-fields of every base type/width, nested/anonymous members, unions, arrays) in five storage kinds are driven by generated sequences of stores, op=, ++/--, copies and whole/sub-aggregate assignments through all lvalue spellings; every named leaf and the surrounding canaries are dumped after every step and must equal both references. VLA/alloca histories (incl. run-time row sizes and alloca under pending temporaries) check disjointness, content and alignment of all live blocks.',
   note='trusts gcc/clang; objects are memset first so no indeterminate byte is printed; packed+bit-field/_Alignas (D12b/D12c) and _Alignas(N>16) automatic objects (D59) excluded by construction and counted'),
+ 'C05': dict(
+  technique='property-based model-based + differential + metamorphic testing: Hypothesis-driven 6.7.9 stack-machine generator of (type, valid initializer, model of object value); static == static-local == automatic == compound literal == model == gcc == clang',
+  level='exploration',
+  text='A type and a valid initializer for it are drawn together with the value 6.7.9 prescribes (designators incl. nested/out-of-order/resumption, brace elision, strings, unions, unknown bounds, unnamed bit-fields, address constants with offsets through member/array paths). The same text initialises objects of all four storage kinds (automatic ones in a frame dirtied with 0xAA); every dump must equal the model and both references.',
+  note='trusts the Python model only when gcc and clang both agree with it; D54 (re-initialising an aggregate with a braced list merges; pinned by the suite) recorded and excluded by construction'),
 }
